@@ -105,7 +105,7 @@ class C18(Property):
     props_module = 'ChemModel.Props.C18'
     build_modules = ('ChemModel.Gen.FnElectrolytes', 'ChemModel.Model.Electrolytes', 'ChemModel.Basic.Proto')
     driver = 'ChemModel/Driver/C18.lean'
-    n_quick, n_thorough = 900, 14000
+    n_quick, n_thorough = 3000, 40000
     float_tol = 1e-9
     rule = ('ion sets of 1..8 entries with charges -4..4 (0 included), molalities log-uniform over 1e-9..1e3 (12 decades) as exact '
             'decimals (Fractions), floats or quantities arrays in molal / mmol/kg / mol/g / umol/g; 45 % exactly neutral, 15 % inside or '
@@ -516,6 +516,8 @@ class C18(Property):
                 r, w = self._real_ap(c)
                 if isinstance(r, Exception):
                     return exc_name(r)
+                if isinstance(r, complex) or getattr(r, 'dtype', None) is not None and r.dtype.kind == 'c':
+                    return 'raised:complex result'
                 return (float(r), 'W' if w else '-')
         except Exception as e:
             return 'raised:' + exc_name(e) + ':' + str(e)[:80]
@@ -706,6 +708,8 @@ class C18(Property):
             return None
         if isinstance(r, Exception):
             return 'activity product raised %s: %s' % (exc_name(r), str(r)[:80])
+        if isinstance(r, complex) or getattr(r, 'dtype', None) is not None and r.dtype.kind == 'c':
+            return 'activity product is not a real number: %r' % (r,)
         A = A_textbook(c['eps'], c['T'], c['rho'])
         B = B_textbook(c['eps'], c['T'], c['rho'])
         IS = c['IS']
@@ -724,8 +728,11 @@ class C18(Property):
                 tot += c['stoich'][i] * lg_extended(IS, c['z'][i], c['a'][i], A, B, c['C'])
             else:
                 tot += c['stoich'][i] * lg_davies(IS, c['z'][i], A, c['C'])
-        want = math.exp(tot)
-        if not close(float(r), want, 1e-6 * max(1.0, abs(tot)), 0.0):
+        try:
+            want = math.exp(tot)
+        except OverflowError:
+            want = float('inf')
+        if not close(float(r), want, min(0.5, 1e-6 * max(1.0, abs(tot))), 0.0):
             return '%s activity product is %r, exp(sum nu ln gamma) = %r' % (c['f'], float(r), want)
         return None
 
